@@ -71,6 +71,11 @@ func (t *Track) RecordFrom(inPort drivers.In, ticks MetricTicks, bpm float64) (s
 		}
 		deltams := absms - absmillisec
 		absmillisec = absms
+		if deltams < 0 {
+			// the time stamps of a session need not start at zero (the first one may be negative):
+			// that must not end up as a huge unsigned delta which cannot be written to a file
+			deltams = 0
+		}
 		delta := ticks.Ticks(bpm, time.Duration(deltams)*time.Millisecond)
 		t.Add(delta, msg)
 	})
